@@ -316,27 +316,38 @@ Fixpoint zrange (a : Z) (n : nat) : list Z := match n with O => [] | S k => a ::
 Definition probe_ids (s : mgr) : list Z :=
   [- two31; -1] ++ zrange 0 (Z.to_nat (Z.max (nm s) (nv s) + 2)) ++ [two31 - 1].
 
-Definition probe : Type := Z * cres Z * cres Z * cres Z * cres (list Z).
-Definition probe_of (s : mgr) (id : Z) : probe :=
-  (id, counter_value s id, counter_state s id, free_to_reuse_deadline s id, counter_label s id).
+(* digests used to keep the dumps small (harness/c15 computes the same numbers):
+   polynomial hashes modulo 2^61 - 1; trailing zero bytes do not change [hash] *)
+Definition HP : Z := 2305843009213693951.
+Definition hash (l : list Z) : Z := fold_right (fun b acc => (b + 257 * acc) mod HP) 0 l.
+Definition hashw (l : list Z) : Z := fold_right (fun w acc => (w + 1000003 * acc) mod HP) 0 l.
+(* a byte list without its trailing zeros *)
+Definition strip0 (l : list Z) : list Z :=
+  fold_right (fun b acc => match acc with [] => if b =? 0 then [] else [b] | _ => b :: acc end) [] l.
 
-(* little-endian words, as vcommon::sparse_words prints them *)
+(* unsigned little-endian 32-bit words of a byte area *)
 Fixpoint words_of (l : list Z) : list Z :=
   match l with
-  | a :: b :: c :: d :: t => wrap32 (a + 256 * b + 65536 * c + 16777216 * d) :: words_of t
+  | a :: b :: c :: d :: t => (a + 256 * b + 65536 * c + 16777216 * d) :: words_of t
   | [] => []
-  | _ => [wrap32 (le_bytes l)]
+  | _ => [le_bytes l]
   end.
 Definition rec_words (r : rec) : list Z :=
-  [wrap32 (r_state r); wrap32 (r_type r); wrap32 (r_deadline r mod two32); wrap32 (r_deadline r / two32)]
-  ++ words_of (r_key r) ++ [wrap32 (r_llen r)] ++ words_of (r_label r).
-Fixpoint sparse (off : Z) (ws : list Z) : list (Z * Z) :=
-  match ws with [] => [] | w :: t => (if w =? 0 then [] else [(off, w)]) ++ sparse (off + 4) t end.
-Definition render_meta (s : mgr) : list (Z * Z) :=
-  flat_map (fun id => sparse (id * ML) (rec_words (meta s id))) (zrange 0 (Z.to_nat (nm s))).
-Definition render_vals (s : mgr) : list (Z * Z) :=
-  flat_map (fun id => sparse (id * CL) [wrap32 (vals s id mod two32); wrap32 (vals s id / two32)])
-           (zrange 0 (Z.to_nat (nv s))).
+  [r_state r mod two32; r_type r mod two32; r_deadline r mod two32; r_deadline r / two32]
+  ++ words_of (r_key r) ++ [r_llen r mod two32] ++ words_of (r_label r).
+Definition render_meta (s : mgr) : Z :=
+  hashw (flat_map (fun id => rec_words (meta s id)) (zrange 0 (Z.to_nat (nm s)))).
+Definition render_vals (s : mgr) : Z :=
+  hashw (flat_map (fun id => [vals s id mod two32; vals s id / two32] ++ repeat 0 30) (zrange 0 (Z.to_nat (nv s)))).
+
+Definition probe : Type := Z * cres Z * cres Z * cres Z * cres Z.
+Definition probe_of (s : mgr) (id : Z) : probe :=
+  (id, counter_value s id, counter_state s id, free_to_reuse_deadline s id,
+   l <~ counter_label s id ;; COk (hash l)).
+
+(* what a dump shows of an enumerated counter: the key without its trailing zeros *)
+Definition entry_view (e : entry) : entry := let '(id, t, k, l) := e in (id, t, strip0 k, l).
+Definition item_view (i : item) : Z * Z * Z := let '(t, k, l) := i in (t, hash k, hash l).
 
 (* lookups tried at a Dump: for each enumerated counter its own (type, key) and a key that is absent *)
 Definition lookups (s : mgr) : list (cres Z * cres bool) :=
@@ -349,9 +360,10 @@ Definition lookups (s : mgr) : list (cres Z * cres bool) :=
   end.
 
 Definition dump : Type :=
-  cres (list entry) * cres (list item) * list probe * list (cres Z * cres bool) * list (Z * Z) * list (Z * Z).
+  cres (list entry) * cres (list (Z * Z * Z)) * list probe * list (cres Z * cres bool) * Z * Z.
 Definition dump_of (s : mgr) : dump :=
-  (for_each s, iter s, map (probe_of s) (probe_ids s), lookups s, render_meta s, render_vals s).
+  (l <~ for_each s ;; COk (map entry_view l), l <~ iter s ;; COk (map item_view l),
+   map (probe_of s) (probe_ids s), lookups s, render_meta s, render_vals s).
 
 Inductive obs :=
 | OStep (res : cres Z) (val_after : cres Z) (ids : cres (list Z))
